@@ -198,9 +198,11 @@ pub fn load_findings() -> Vec<Finding> {
     out
 }
 
-/// checks that feed generated programs through the code generator share the exclusion rules
-/// of the miscompilation findings: a finding that lists C02 in `also` applies to all of them
-const SEM_FAMILY: [&str; 11] = ["C01", "C02", "C03", "C04", "C11", "C12", "C13", "C14", "C15", "C17", "C18"];
+/// checks that compare *behaviour* of generated programs share the exclusion rules of the
+/// miscompilation findings: a finding of C01/C02 (or one that lists C02 in `also`) applies to all
+/// of them. Checks that only look at the emitted text (C03 ranges, C04 sizes, C12 call graph, C13
+/// assembling) do not inherit them: a miscompiled shape must still assemble and be sized right.
+const SEM_FAMILY: [&str; 7] = ["C01", "C02", "C11", "C14", "C15", "C17", "C18"];
 
 pub fn findings_for(prop: &str) -> Vec<Finding> {
     load_findings()
